@@ -701,6 +701,19 @@ Section Generic.
       destruct (match_equal_cls rules olds m rest (fun x Hx Hc => proj1 (Hok x Hx Hc)) Hcc E) as [A B].
       rewrite <- A. apply build2_cls; auto.
     Qed.
+    (* the common case spelled out: exactly one old controller and exactly one new rule in the class
+       (the unchanged rule, once in either list): after the load exactly one controller serves the
+       class, and it is the old object *)
+    Lemma unchanged_single n rules olds c0 :
+      (forall x, In x rules -> cls x = true -> mismatch res x = false /\ supported x = true) ->
+      cls_compat olds rules ->
+      filter clsC olds = [c0] -> length (filter cls rules) = 1%nat ->
+      filter clsC (build n res rules olds) = [c0].
+    Proof.
+      intros Hok Hcc Ho Hn. pose proof (unchanged_keeps_controller n rules olds Hok Hcc) as H.
+      rewrite Ho, Hn in H. cbn in H.
+      inversion H as [|mo c l1 l2 Hs Hr E1 E2]. subst. inversion Hr. subst. cbn in Hs. subst. reflexivity.
+    Qed.
   End Class.
 
   (* C14: statistics reuse.  A rule that matched no old controller is generated over the statistics
